@@ -340,7 +340,10 @@ def _temporal(ctx, env, nm, vals, variant):
         y = Variable(nm["y"], g.T, env)
         da.add_effect(EndTiming(), F(g.p, [em.VariableExp(y)]), em.FALSE(), em.Not(em.Equals(em.VariableExp(y), x)), forall=[y])
     else:
-        da.set_closed_duration_interval(tvio._num(em, dur_lo), em.Plus(F(g.u), tvio._num(em, dur_hi)))
+        # closed, left-open, right-open or open duration interval (each side has its own comparison in the text)
+        setter = (da.set_closed_duration_interval, da.set_left_open_duration_interval, da.set_right_open_duration_interval,
+                  da.set_open_duration_interval)[ctx.choice("dur_ivl", 4)]
+        setter(tvio._num(em, dur_lo), em.Plus(F(g.u), tvio._num(em, dur_hi)))
         # closed, left-open or right-open start-to-end interval (half-open ones exercise both slot guards of the writer)
         from unified_planning.model import LeftOpenTimeInterval, RightOpenTimeInterval
         ivl = (ClosedTimeInterval, LeftOpenTimeInterval, RightOpenTimeInterval)[ctx.choice("ivl", 3)]
